@@ -129,6 +129,7 @@ def run(W, chk):
                     cmps.append((e, m))
     if not pol.hits or not cmps:
         chk.skip("ACUT-same-denom-fee", "CreatePool", "no `any(token-factory fee denom == creation fee denom)` decision / creation-fee comparison found in this shape")
+        cmps = []
     for (e, m) in cmps[:1]:
         bare = any("add" not in ops for ops in m["Store(CONFIG).pool_creation_fee.amount"])
         tfa = any("denom_creation_fee" in o for o in m)
